@@ -1427,8 +1427,11 @@ THEOREMS = [
     # field formulas: strain = sym grad u, stress = C : strain, div stress = 0, 1/r
     'C12.eta_dir_deriv', 'C12.strain_is_symgrad', 'C12.stress_is_C_strain', 'C12.stress_is_C_strain_at',
     'C12.stress_div_free', 'C12.stress_div_free_of_eigen', 'C12.eta_homog', 'C12.falls_as_inv_r',
+    # ... the same as analytic statements (Mathlib's complex logarithm): derivatives, continuity, one-sided limits
+    'C12.strain_is_symgrad_deriv', 'C12.stress_div_free_deriv',
     # Burgers vector
-    'C12.burgers_closure', 'C12.disp_continuous_off_cut',
+    'C12.burgers_closure', 'C12.disp_continuous_off_cut', 'C12.disp_continuous_off_cut_analytic',
+    'C12.burgers_jump_limit',
     # energy-coefficient tensor
     'C12.K_symm', 'C12.kOf_conj', 'C12.K_real_partial',
     # covariance under rotating the whole problem, independence of the eigen-solver's normalisation
@@ -1436,16 +1439,14 @@ THEOREMS = [
     # isotropic closed form (generated definitions)
     'C12.iso_stress_is_hooke', 'C12.iso_symmetric', 'C12.iso_falls_as_inv_r', 'C12.iso_burgers_jump',
     'C12.iso_jump_general', 'C12.iso_K_symm', 'C12.iso_K_posdef',
+    'C12.thetaOf_halfplanes', 'C12.iso_strain_is_symgrad_deriv', 'C12.iso_stress_div_free_deriv',
 ]
 PARTIAL = {
-    'fields as analytic derivatives (Stroh)': 'strain_is_symgrad / stress_div_free / falls_as_inv_r are statements about the '
-        'coefficients of ln(eta_a) and 1/eta_a in the coded sums together with eta_dir_deriv (eta_a is affine with gradient '
-        'm + p_a n): the formal derivative. That d/dx ln = 1/x for the complex logarithm off the cut is not restated in Lean; '
-        'the finite-difference oracle checks it on the real code.',
-    'displacement jump (Stroh)': 'burgers_closure assumes the completeness relation sum_a k_a A_a (x) L_a = 1 exactly (it is the '
-        'solver\'s own first self-check, which holds to round-off; the driver recomputes the residual for every solved '
-        'problem) and that ln(eta_a) jumps by +-2 pi i with the coded alternating sign, i.e. Im p_a > 0 for the first and '
-        '< 0 for the second member of each pair.',
+    'displacement jump (Stroh)': 'burgers_closure / burgers_jump_limit (one-sided limits of the coded displacement with the '
+        'principal complex logarithm, lim(y->0+) - lim(y->0-) = b) assume the completeness relation sum_a k_a A_a (x) L_a = 1 '
+        'exactly (it is the solver\'s own first self-check, which holds to round-off; the driver recomputes the residual for '
+        'every solved problem) and that Im p_a > 0 for the first and < 0 for the second member of each pair (LAPACK\'s '
+        'ordering; verified exactly by the driver through the ConjPairs flag and by the sign of the jump in the search).',
     'K_tensor real': 'K_real_partial assumes that numpy.linalg.eig lists the six modes as adjacent complex-conjugate pairs '
         '(ConjPairs); LAPACK does so for a real matrix, the driver verifies it exactly on every solved problem.',
     'K_tensor positive-definite (Stroh)': 'not proved: positive-definiteness of the Barnett-Lothe tensor needs the strong '
@@ -1454,14 +1455,17 @@ PARTIAL = {
     'isotropic limit': 'that the Stroh solution tends to the isotropic closed form as the anisotropy vanishes is a statement '
         'about the eigen-solver near a triple degenerate eigenvalue: explored on the real code only (difference shrinks '
         'linearly with the anisotropy).',
-    'isotropic fields as derivatives': 'iso_stress_is_hooke, iso_symmetric, iso_falls_as_inv_r, iso_burgers_jump are exact; that '
-        'the generated strain is the symmetric gradient of the generated displacement and that the generated stress is '
-        'divergence-free are statements about derivatives of arctan/log/rational functions (see docs/C12.md for what is '
-        'proved); the finite-difference oracle checks them on the real code.',
+    'isotropic solution on the plane x = 0': 'iso_strain_is_symgrad_deriv is stated on the open half-planes x != 0, where '
+        'theta() is arctan(y/x) plus a constant (thetaOf_halfplanes); that the special-cased values +-pi/2 on x = 0 make '
+        'the displacement continuous (and differentiable) across that plane is not stated in Lean; the continuity oracle '
+        'checks it on the real code with exact zeros of pos.m.',
     'covariance': 'eigen_covariant / fields_covariant / K_covariant show that the rotated eigen-pairs solve the rotated problem '
         'and give the rotated fields; that numpy.linalg.eig *returns* those pairs (it may return any scaling and, for the '
         'three pairs, any order) is covered only for the scaling (scale_invariant); reordering of the pairs is explored on '
         'the real code (covariance oracle).',
+    'stress_div_free over the reals': 'the derivative theorems for the Stroh fields are stated for complex field points and '
+        'complex directions (F = C, the type np.log works in), which contains the real points the API takes; the coded '
+        'np.real_if_close step (dropping an imaginary part below tol) is modelled only in the correspondence.',
 }
 RULE = ('correspondence: positive-definite stiffness of the 7 crystal classes (isotropic base + class-shaped perturbation, scale '
         '1 / 160.25 / 2^-7), Burgers vectors edge / screw / mixed / with climb component / crystal vectors, orientation by '
@@ -1479,8 +1483,10 @@ ASSUMPTIONS = [
     'numpy.linalg.eig returns (p_a, (A_a, L_a)) with N v = p v up to the residual recomputed by the driver on every solved '
     'problem (bound 1e-13 x cond(V) x row scale); exact eigenvalue degeneracy is outside the property',
     'numpy.linalg.inv(nn): the driver uses the exact adjugate inverse, the theorems take nn . nnInv = 1 as hypothesis',
-    'np.log of a complex number is a branch of the logarithm with the cut on the negative real axis (values are passed to the '
-    'model, never computed in Lean); np.arctan, np.pi, k**.5 and vector norms likewise (sqrt residuals are recomputed)',
+    'np.log of a complex number is the principal branch (Mathlib Complex.log; cut on the negative real axis), np.log / '
+    'np.arctan of a real number are Real.log / Real.arctan, np.pi is pi: used by the analytic theorems (…_deriv, '
+    'burgers_jump_limit); in the correspondence the values are passed to the model, never computed in Lean; k**.5 and '
+    'vector norms likewise (sqrt residuals are recomputed)',
     'numpy einsum / dot compute the mathematical contraction up to round-off bounded by 1e-11 x the sum of |terms|',
     'Box.vector_crystal_to_cartesian / plane_crystal_to_cartesian (property C16) give the line direction and plane normal; '
     'the search oracle recomputes the plane normal exactly from the reciprocal lattice',
@@ -1500,8 +1506,10 @@ MANIFEST = {
             'equation; strain and stress homogeneous of degree -1; displacement jump = b from the completeness relation; '
             'K symmetric, real given conjugate-pair ordering; covariance of the eigen residuals, fields and K under any R '
             'with R^T R = 1; independence of the eigenvector normalisation; isotropic: stress = Hooke(strain), symmetry, 1/r, '
-            'jump = in-plane b, K symmetric positive-definite. Partial: analytic derivative statements, positive-definite '
-            'Stroh K, isotropic limit (explored on the real code).',
+            'jump = in-plane b, K symmetric positive-definite. Analytic versions with Mathlib\'s complex logarithm / arctan / log: '
+            'strain = symmetric gradient and div stress = 0 as HasDerivAt statements (Stroh over C, isotropic over R), '
+            'continuity off the cut, one-sided limits at the cut differ by b. Partial: positive-definite Stroh K, isotropic '
+            'limit, ordering of the eigen-solver output (explored / verified on the real code).',
     'note': 'Trusted: Lean kernel + propext/Classical.choice/Quot.sound; numpy.linalg.eig/inv, np.log, np.arctan (their values '
             'are inputs of the model and the residuals of what the theorems assume about them are recomputed exactly by the '
             'driver for every solved problem); the AST translator; float round-off bounded by 1e-11 x sum |terms| in the '
